@@ -517,7 +517,14 @@ def translate_module(rel, status):
 
 
 # modules of which only some methods are inside the sequential subset (the rest uses threads / queues)
-ONLY = {"comm.py": {"CommHandler": ["_read_hdr", "_read_frame"]}}
+ONLY = {"comm.py": {"CommHandler": [
+    "_read_hdr", "_read_frame",
+    # the configuration logic, sequential once the frame queue is a scripted stub
+    "_get_frame", "_get_ack", "_channel_enable", "_channel_div", "_nxslib_channels_enable",
+    "_nxslib_channels_div", "_ch_divider_default", "_channels_init", "dev", "flags_is_overflow",
+    "stream_start", "stream_stop", "channels_write", "ch_enable", "ch_disable", "ch_divider",
+    "ch_enable_all", "ch_disable_all", "ch_is_enabled", "ch_div_get", "channels_default_cfg",
+    "_nxslib_cmninfo", "_nxslib_chinfo"]}}
 
 MODULES = ["proto/iframe.py", "proto/serialframe.py", "dev.py", "proto/iparse.py", "proto/parse.py",
            "proto/iparserecv.py", "proto/parserecv.py", "intf/iintf.py", "comm.py", "$prelude"]
